@@ -1,7 +1,20 @@
 package main
 
+import (
+	"bytes"
+	"fmt"
+	"strings"
+	texttemplate "text/template"
+)
+
 func init() {
 	generators["TM"] = genTM
+	generators["C01"] = genC01
+	generators["C02"] = genC02
+	generators["C03"] = genC03
+	replayers["tmpl.c01"] = func(a []string) string { return realC01(a[0]) }
+	replayers["tmpl.c02"] = func(a []string) string { return lastOf(runLinesStr(a[0])) }
+	replayers["tmpl.c03"] = func(a []string) string { return lastOf(runLinesStr(a[6])) + "~" + lastOf(runLinesStr(a[7])) }
 }
 
 // genTM: smoke generator — fresh set, one Parse, one Execute.
@@ -16,12 +29,7 @@ func genTM(c *Ctx) {
 			continue
 		}
 		r := runHistoryReal(hist)
-		cls := "ok"
-		if len(r) > 0 {
-			parts := splitLast(r)
-			cls = parts
-		}
-		c.emit("tmpl.hist", []string{hist}, r, true, cls)
+		c.emit("tmpl.hist", []string{hist}, r, true, splitLast(r))
 	}
 }
 
@@ -35,9 +43,407 @@ func splitLast(r string) string {
 		}
 	}
 	for i := 0; i < len(last); i++ {
-		if last[i] == ' ' {
+		if last[i] == ' ' || last[i] == '~' {
 			return last[:i]
 		}
 	}
 	return last
+}
+
+// inert: every string / safe-typed leaf becomes "x" ("" if it was empty): same control path, inert content
+func (v *Val) inert() *Val {
+	switch v.Kind {
+	case "s", "t":
+		s := "x"
+		if v.S == "" {
+			s = ""
+		}
+		return &Val{Kind: "s", S: s}
+	case "p":
+		return &Val{Kind: "p", P: v.P.inert()}
+	case "l":
+		o := &Val{Kind: "l"}
+		for _, x := range v.L {
+			o.L = append(o.L, x.inert())
+		}
+		return o
+	case "m":
+		o := &Val{Kind: "m", M: map[string]*Val{}, Keys: append([]string{}, v.Keys...)}
+		for k, x := range v.M {
+			o.M[k] = x.inert()
+		}
+		return o
+	}
+	return v
+}
+
+// inertTyped: like inert, but safe-typed leaves keep their type with benign contents (so that typed-only
+// contexts still accept them): the engine itself is run on this value to obtain the structure reference
+var benignOf = map[string]string{"H": "x", "S": "x", "Y": "x:y;", "E": "x{}", "U": "x", "R": "https://x.example/x", "I": "x", "X": "x"}
+
+func (v *Val) inertTyped() *Val {
+	switch v.Kind {
+	case "s":
+		s := "x"
+		if v.S == "" {
+			s = ""
+		}
+		return &Val{Kind: "s", S: s}
+	case "t":
+		return &Val{Kind: "t", Tag: v.Tag, S: benignOf[v.Tag]}
+	case "p":
+		return &Val{Kind: "p", P: v.P.inertTyped()}
+	case "l":
+		o := &Val{Kind: "l"}
+		for _, x := range v.L {
+			o.L = append(o.L, x.inertTyped())
+		}
+		return o
+	case "m":
+		o := &Val{Kind: "m", M: map[string]*Val{}, Keys: append([]string{}, v.Keys...)}
+		for k, x := range v.M {
+			o.M[k] = x.inertTyped()
+		}
+		return o
+	}
+	return v
+}
+
+// plainRender: the author's template through plain text/template (no contextual escaping) with inert values
+func plainRender(text string, data *Val) (string, bool) {
+	ok := true
+	var out string
+	func() {
+		defer func() {
+			if r := recover(); r != nil {
+				ok = false
+			}
+		}()
+		t, err := texttemplate.New("root").Parse(text)
+		if err != nil {
+			ok = false
+			return
+		}
+		var buf bytes.Buffer
+		if err := t.Execute(&buf, data.Go()); err != nil {
+			ok = false
+			return
+		}
+		out = buf.String()
+	}()
+	return out, ok
+}
+
+// realC01 re-runs a tmpl.c01 history and appends the plain render
+func realC01(hist string) string {
+	r := lastOf(runLinesStr(hist))
+	if !strings.HasPrefix(r, "ok ") {
+		return r
+	}
+	var text string
+	var data *Val
+	for _, l := range strings.Split(hist, "\n") {
+		f := strings.Fields(l)
+		if len(f) >= 3 && f[0] == "parse" {
+			_, a, _ := parseOpLine("x " + f[2])
+			text = a[0]
+		}
+		if len(f) >= 3 && f[0] == "exec" {
+			_, a, _ := parseOpLine("x " + f[2])
+			data, _, _ = parseValWire(strings.Fields(a[0]))
+		}
+	}
+	// the engine itself on inert values of the same shape and types
+	hb := newHistBuilder()
+	hb.add(Step{Op: "new", H: 0, Name: "root"})
+	hb.add(Step{Op: "parse", H: 0, Text: text})
+	ri := hb.add(Step{Op: "exec", H: 0, Data: data.inertTyped()})
+	outI := "ierr"
+	if strings.HasPrefix(ri, "ok ") {
+		outI = strings.TrimPrefix(ri, "ok ")
+	}
+	p, ok := plainRender(text, data.inert())
+	if !ok {
+		return r + " " + outI + " perr"
+	}
+	return r + " " + outI + " " + hxs(p)
+}
+
+// untrusted-only data with benign typed values: typed contexts get exercised, typed values add no markup
+var benignTyped = []*Val{
+	{Kind: "t", Tag: "S", S: "var a=1;"}, {Kind: "t", Tag: "Y", S: "color:red;"}, {Kind: "t", Tag: "E", S: "p{}"},
+	{Kind: "t", Tag: "U", S: "/x"}, {Kind: "t", Tag: "R", S: "https://x.example/y.js"}, {Kind: "t", Tag: "I", S: "id1"},
+}
+
+func (c *Ctx) untrustedLeaf() *Val {
+	switch r := c.rng.Intn(12); {
+	case r < 8:
+		return &Val{Kind: "s", S: c.hostile()}
+	case r < 10:
+		return pick(c, benignTyped)
+	case r < 11:
+		return &Val{Kind: "i", I: c.rng.Intn(100)}
+	default:
+		return &Val{Kind: "p", P: &Val{Kind: "s", S: c.hostile()}}
+	}
+}
+
+func (c *Ctx) untrustedData() *Val {
+	m := &Val{Kind: "m", M: map[string]*Val{}}
+	put := func(k string, v *Val) { m.Keys = append(m.Keys, k); m.M[k] = v }
+	for _, k := range []string{"X", "Y", "Z"} {
+		put(k, c.untrustedLeaf())
+	}
+	put("C", &Val{Kind: "b", B: c.rng.Intn(2) == 0})
+	put("D", &Val{Kind: "b", B: c.rng.Intn(2) == 0})
+	l := &Val{Kind: "l"}
+	for i, n := 0, c.rng.Intn(4); i < n; i++ {
+		l.L = append(l.L, c.untrustedLeaf())
+	}
+	put("L", l)
+	inner := &Val{Kind: "m", M: map[string]*Val{"X": c.untrustedLeaf()}, Keys: []string{"X"}}
+	put("M", inner)
+	return m
+}
+
+// lexical variants the property names explicitly
+var c01Special = []string{
+	"<script>var a = 1;</script>", "<SCRIPT>x</SCRIPT >", "<style>p{}</STYLE\f>", "<textarea>a</textarea\t>", "<title>t</title\n>",
+	"<script>if (a</script b) {}</script>", "<textarea></textareax></textarea>", "<script>\"<!--\"</script>", "<script>\"<!--<script>\"</script>",
+	"<title>{{.X}}</title>", "<textarea>{{.X}}</textarea>", "<p title=a\fid=b>", "<p\ftitle='x'>", "<p/title=\"x\">", "<br/>", "<p title = 'x' >",
+	"<!-- c -->", "<!---->", "<!-->", "<!--->", "<!-- a -- b -->", "<!--x--!>", "<!DOCTYPE html>", "<!doctype HTML>", "x<", "x</", "x<!", "x<!-",
+	"<p {{if .C}}title{{else}}lang{{end}}=\"{{.X}}\">", "<{{if .C}}b{{else}}i{{end}}>{{.X}}</b>", "<a href=\"/p{{if .C}}?a={{.X}}{{end}}\">",
+	"<s{{if .C}}{{end}}pan>{{.X}}</span>", "<iframe><b title=\"</iframe>\"></iframe>", "<xmp>{{.X}}</xmp>", "<?php x ?>", "<!x>", "</ x>", "<![CDATA[x]]>",
+	"<p title=\"a &lt; b\">", "&amp;{{.X}}", "<p\ttitle\n=\r\"{{.X}}\"\f>", "<img src=\"/a.png\" alt=\"{{.X}}\"/>", "<p title='{{.X}}' lang=\"{{.Y}}\">",
+	"{{range .L}}<li>{{.}}</li>{{end}}", "{{with .M}}<i title=\"{{.X}}\">{{.X}}</i>{{end}}", "{{template \"h0\" .}}", "<b>{{template \"h1\" .}}</b>",
+}
+
+func (c *Ctx) c01Text() string {
+	var b strings.Builder
+	for i, n := 0, 1+c.rng.Intn(4); i < n; i++ {
+		if c.rng.Intn(2) == 0 {
+			b.WriteString(pick(c, c01Special))
+		} else {
+			b.WriteString(c.body(1))
+		}
+	}
+	for i := 0; i < 3; i++ {
+		if c.rng.Intn(3) != 0 {
+			b.WriteString(fmt.Sprintf("{{define \"h%d\"}}%s{{end}}", i, pick(c, helperBodies)))
+		}
+	}
+	return b.String()
+}
+
+func containsSpecial(s string) bool { return strings.ContainsAny(s, "<>\"'&= \t\n\f\r\x00") }
+
+func valHasSpecial(v *Val) bool {
+	switch v.Kind {
+	case "s":
+		return containsSpecial(v.S)
+	case "p":
+		return valHasSpecial(v.P)
+	case "l":
+		for _, x := range v.L {
+			if valHasSpecial(x) {
+				return true
+			}
+		}
+	case "m":
+		for _, x := range v.M {
+			if valHasSpecial(x) {
+				return true
+			}
+		}
+	}
+	return false
+}
+
+func genC01(c *Ctx) {
+	c.stats.Rule = "fresh set, Parse(template text from an HTML/template grammar: tag/attr case, all five whitespace bytes, '/' in tags, quoted/unquoted/valueless attributes, upper-case special end tags with each separator, text ending in '<' '</' '<!' '<!-', comments of all abrupt forms, RCDATA/script/style bodies with near-miss end tags, actions under if/else/range/with/template/define), Execute(untrusted data: hostile byte strings incl. invalid UTF-8, NUL, quotes, angle brackets, whitespace, partial entities, '-->', '</script'; typed values only with benign contents). Real output re-tokenized by the spec tokenizer and compared with the same template rendered by plain text/template with inert values. Non-trivial: the template was accepted and the data contains at least one HTML special."
+	for i := 0; i < c.n(1200, 40000); i++ {
+		text := c.c01Text()
+		data := c.untrustedData()
+		hb := newHistBuilder()
+		hb.add(Step{Op: "new", H: 0, Name: "root"})
+		if hb.add(Step{Op: "parse", H: 0, Text: text}) == "" {
+			c.stats.Classes["unparsable"]++
+			continue
+		}
+		hb.add(Step{Op: "exec", H: 0, Data: data})
+		r := realC01(hb.hist())
+		c.emit("tmpl.c01", []string{hb.hist()}, r, strings.HasPrefix(r, "ok") && valHasSpecial(data), splitLast(r))
+	}
+}
+
+// ---------------------------------------------------------------- C02
+
+const mk = "zQ7"
+
+var dangerous = []string{
+	"javascript:alert(1)//" + mk, "JaVaScRiPt:alert(1)//" + mk, "java\tscript:alert(1)//" + mk, " javascript:alert(1)//" + mk, "\x01javascript:alert(1)//" + mk,
+	"javascript&colon;alert(1)//" + mk, "javascript&#58;alert(1)//" + mk, "jav&#x09;ascript:alert(1)//" + mk, "vbscript:x//" + mk, "data:text/html,<script>alert(1)</script>" + mk,
+	"alert(1)//" + mk, "</script><script>alert(1)//" + mk, "x\" onmouseover=\"alert(1)//" + mk, "color:red;" + mk, "expression(alert(1))" + mk, "-->" + mk, mk,
+	"https://evil.example/x.js?" + mk, "//evil.example/x.js?" + mk, "/ok/" + mk, "a.png 1x, javascript:alert(1)//" + mk + " 2x", "x," + mk,
+}
+
+// strings for code-loading URL attributes: marker FIRST, so that its position is where the data starts
+var originData = []string{mk + "https://evil.example/x.js", mk + "//evil.example/x.js", mk + "/x.js", mk, mk + ".evil.example/x.js", mk + "@evil.example/x.js"}
+
+var splitPairs = [][2]string{{"java", "script:alert(1)//" + mk}, {"javascript", ":alert(1)//" + mk}, {"j", "avascript:alert(1)//" + mk}, {"javascript:", "alert(1)//" + mk}, {"JAVA", "SCRIPT:alert(1)//" + mk}}
+
+var urlTargets = [][2]string{{"a", "href"}, {"area", "href"}, {"img", "src"}, {"form", "action"}, {"button", "formaction"}, {"input", "formaction"}, {"video", "src"}, {"audio", "src"},
+	{"source", "src"}, {"input", "src"}, {"img", "srcset"}, {"source", "srcset"}, {"q", "cite"}, {"video", "poster"}, {"link", "href"}, {"a", "HREF"}, {"IMG", "SRC"}}
+var codeTargets = [][2]string{{"script", "src"}, {"iframe", "src"}, {"frame", "src"}, {"embed", "src"}, {"object", "data"}, {"base", "href"}, {"link", "href"}, {"SCRIPT", "SRC"}}
+var relForLink = []string{"stylesheet", "STYLESHEET", "alternate stylesheet", "stylesheet alternate", "icon", "icon stylesheet", "alternate\tstylesheet", "style&#115;heet", "stylesheet\fx", "", "preload", "next"}
+var c02Prefixes = []string{"", "", "", "/", "/p/", "/p?q=", "#", "https://ok.example/", "//ok.example/", "https://", "https://ok.example", "http:", "java", "javascript:", "&#106;ava", "j&#x41;va", "data:", "/a&amp;b=", "x:"}
+
+func (c *Ctx) c02Text() (string, string) {
+	q := pick(c, []string{"\"", "\"", "'"})
+	switch c.rng.Intn(14) {
+	case 0, 1, 2: // URL attribute, one action
+		t := pick(c, urlTargets)
+		rel := ""
+		if strings.ToLower(t[0]) == "link" {
+			rel = " rel=\"" + pick(c, relForLink) + "\""
+		}
+		return "<" + t[0] + rel + " " + t[1] + "=" + q + pick(c, c02Prefixes) + "{{.X}}" + q + ">", "url1"
+	case 3, 4: // split over adjacent actions / branches / range
+		t := pick(c, urlTargets)
+		form := pick(c, []string{"{{.A}}{{.B}}", "{{.A}}{{if .C}}{{.B}}{{end}}", "{{range .P}}{{.}}{{end}}", "{{.A}}{{template \"hb\" .}}", "{{template \"ha\" .}}{{.B}}", "{{with .M}}{{.X}}{{end}}{{.B}}"})
+		return "<" + t[0] + " " + t[1] + "=" + q + pick(c, []string{"", "", "/x?"}) + form + q + ">{{define \"ha\"}}{{.A}}{{end}}{{define \"hb\"}}{{.B}}{{end}}", "split"
+	case 5, 6: // code-loading URL: data at the origin-determining start
+		t := pick(c, codeTargets)
+		rel := ""
+		if strings.ToLower(t[0]) == "link" {
+			rel = " rel=\"" + pick(c, relForLink) + "\""
+		}
+		closing := ""
+		if strings.ToLower(t[0]) == "script" {
+			closing = "</script>"
+		}
+		return "<" + t[0] + rel + " " + t[1] + "=" + q + pick(c, []string{"", "", "https://", "//", "https://ok.example", "https://ok.example/", "/static/", "{{.O}}"}) + "{{.O}}" + q + ">" + closing, "code-url"
+	case 7: // element bodies
+		return pick(c, []string{"<script>{{.X}}</script>", "<script>var a = \"{{.X}}\";</script>", "<style>{{.X}}</style>", "<style>p { color: {{.X}} }</style>", "<SCRIPT>{{.X}}</SCRIPT>",
+			"<script type=\"text/plain\">{{.X}}</script>", "<svg><script>{{.X}}</script></svg>"}), "body"
+	case 8: // handlers, style, srcdoc
+		return "<p " + pick(c, []string{"onclick", "ONCLICK", "onmouseover", "style", "STYLE", "srcdoc", "onfoo", "on"}) + "=" + q + pick(c, []string{"", "f(", "color:"}) + "{{.X}}" + q + ">", "attr-code"
+	case 9: // comments
+		return pick(c, []string{"<!-- {{.X}} -->", "<!--{{.X}}-->", "<!-- a -->{{.X}}", "<p><!-- {{.X}}", "<!--[if IE]>{{.X}}<![endif]-->"}), "comment"
+	case 10: // helper shared between two sites
+		return "<a href=\"{{template \"u\" .}}\">a</a><a href=\"/x?q={{template \"u\" .}}\">b</a><p title=\"{{template \"u\" .}}\">{{define \"u\"}}{{.X}}{{end}}", "shared-helper"
+	case 11: // context-changing helper
+		return "{{define \"open\"}}" + pick(c, []string{"<script>", "<a href=\"", "<p title=\"", "<style>", "<!--"}) + "{{end}}{{template \"open\" .}}" + pick(c, []string{"</script>", "\">", "-->", "</style>"}) + "{{template \"open\" .}}{{.X}}" + pick(c, []string{"</script>", "\">", "-->", "</style>"}), "ctx-helper"
+	case 12: // conditional element / attribute names
+		return pick(c, []string{"{{if .C}}<script{{else}}<br{{end}}>{{.X}}</script>", "{{if .C}}<script{{else}}<b{{end}}>{{.X}}</script>", "<p {{if .C}}onclick{{else}}title{{end}}=\"{{.X}}\">",
+			"{{if .C}}{{if .D}}<script{{else}}<img{{end}}{{else}}<video{{end}} src=\"{{.O}}\">", "<{{if .C}}iframe{{else}}img{{end}} src=\"{{.O}}\">", "<link rel=\"stylesheet\" rel=\"icon\" href=\"{{.O}}\">",
+			"<link rel=\"{{if .C}}stylesheet{{else}}icon{{end}}\" href=\"{{.O}}\">", "<link rel=\"{{.R}}icon\" href=\"{{.O}}\">", "<link href=\"{{.O}}\" rel=\"stylesheet\">"}), "conditional-names"
+	default: // recursion building a URL
+		return "{{define \"t\"}}{{if .Tail}}{{template \"t\" .Tail}}{{end}}{{.Head}}\" title=\"{{end}}<a href=\"{{template \"t\" .}}\">", "recursion"
+	}
+}
+
+func (c *Ctx) c02Data() *Val {
+	m := &Val{Kind: "m", M: map[string]*Val{}}
+	put := func(k string, v *Val) { m.Keys = append(m.Keys, k); m.M[k] = v }
+	s := func(x string) *Val { return &Val{Kind: "s", S: x} }
+	put("X", s(pick(c, dangerous)))
+	sp := pick(c, splitPairs)
+	put("A", s(sp[0]))
+	put("B", s(sp[1]))
+	put("O", s(pick(c, originData)))
+	put("R", s(pick(c, []string{"stylesheet ", "x ", "", "stylesheet", "alternate "})))
+	put("C", &Val{Kind: "b", B: c.rng.Intn(2) == 0})
+	put("D", &Val{Kind: "b", B: c.rng.Intn(2) == 0})
+	put("P", &Val{Kind: "l", L: []*Val{s(sp[0]), s(sp[1])}})
+	put("M", &Val{Kind: "m", Keys: []string{"X"}, M: map[string]*Val{"X": s(sp[0])}})
+	put("Head", s("javascript:alert(1)//"+mk))
+	put("Tail", &Val{Kind: "m", Keys: []string{"Head", "Tail"}, M: map[string]*Val{"Head": s("x"), "Tail": {Kind: "n"}}})
+	return m
+}
+
+func genC02(c *Ctx) {
+	c.stats.Rule = "fresh set, Parse, Execute with data in which EVERY untrusted string carries the marker zQ7: URL-class (element, attribute) pairs × quoting × static prefix class × one action; dangerous strings split over adjacent actions, branches, range iterations and called templates; code-loading URL attributes (script/iframe/frame/embed src, object data, base href, link href × rel spellings) with the marker first; script/style bodies, event-handler/style/srcdoc attributes, comments; a helper shared between two call sites; context-changing helpers; conditional element/attribute names; recursive URL building. Oracle: where the marker lands according to the spec tokenizer; WHATWG scheme of every decoded URL attribute / srcset candidate containing it. Non-trivial: accepted template."
+	for i := 0; i < c.n(2500, 60000); i++ {
+		text, class := c.c02Text()
+		hb := newHistBuilder()
+		hb.add(Step{Op: "new", H: 0, Name: "root"})
+		if hb.add(Step{Op: "parse", H: 0, Text: text}) == "" {
+			c.stats.Classes["unparsable"]++
+			continue
+		}
+		r := hb.add(Step{Op: "exec", H: 0, Data: c.c02Data()})
+		c.emit("tmpl.c02", []string{hb.hist()}, r, strings.HasPrefix(r, "ok"), class+"-"+splitLast(r))
+	}
+}
+
+// ---------------------------------------------------------------- C03
+
+var c03Contents = []string{"", "x", "a&b", "a&amp;b", "<b>x</b>", "\"><script>alert(1)</script>", "' onmouseover='alert(1)", "\" onmouseover=\"alert(1)", "</textarea><script>alert(1)</script>",
+	"</script>", "javascript:alert(1)", "https://x.example/a?b=c&d=e", "color:red;", "p{color:red}", "id1", "a b", "\x00", "\xff", "é", "&#34;", "&quot;x", "x\ny", "ltr", "async", "{{.}}", "`", "="}
+
+var c03Contexts = [][2]string{{"div", ""}, {"p", ""}, {"textarea", ""}, {"title", ""}, {"script", ""}, {"style", ""}, {"b", ""},
+	{"div", "title"}, {"a", "href"}, {"img", "src"}, {"form", "action"}, {"script", "src"}, {"iframe", "src"}, {"img", "srcset"}, {"p", "style"}, {"iframe", "srcdoc"}, {"p", "id"},
+	{"p", "dir"}, {"a", "target"}, {"img", "loading"}, {"script", "async"}, {"p", "data-x"}, {"label", "for"}, {"input", "value"}, {"p", "class"}, {"link", "href"}, {"input", "formaction"}}
+
+func genC03(c *Ctx) {
+	c.stats.Rule = "matrix: 7 safe types (+ pointer, pointer to pointer) × contexts (element contents incl. RCDATA/script/style; one (element, attribute) per sanitization context, with and without static prefix, single and double quotes) × hostile contents; every cell executed twice: with the typed value and with the plain string of the same contents. Exhaustive over the matrix in both tiers (contents list longer in thorough). Non-trivial: the typed execution was accepted."
+	wrap := func(v *Val, depth int) *Val {
+		for i := 0; i < depth; i++ {
+			v = &Val{Kind: "p", P: v}
+		}
+		return v
+	}
+	contents := c03Contents
+	if !c.thorough {
+		contents = contents[:14]
+	}
+	for _, ctx := range c03Contexts {
+		forms := []string{"content"}
+		prefixes := []string{""}
+		if ctx[1] != "" {
+			forms = []string{"dq", "sq"}
+			prefixes = []string{"", "/p/", "/p?q=", "https://x.example/"}
+		}
+		for _, form := range forms {
+			for _, pre := range prefixes {
+				if pre != "" && !(ctx[1] == "href" || ctx[1] == "src" || ctx[1] == "action" || ctx[1] == "formaction") {
+					continue
+				}
+				for _, tag := range safeTags {
+					for _, cont := range contents {
+						for depth := 0; depth < 3; depth++ {
+							if depth > 0 && (c.rng.Intn(3) != 0 && !c.thorough) {
+								continue
+							}
+							var text string
+							switch form {
+							case "content":
+								text = "<" + ctx[0] + ">{{.}}</" + ctx[0] + ">"
+							case "dq":
+								text = "<" + ctx[0] + " " + ctx[1] + "=\"" + pre + "{{.}}\">"
+							case "sq":
+								text = "<" + ctx[0] + " " + ctx[1] + "='" + pre + "{{.}}'>"
+							}
+							typed := wrap(&Val{Kind: "t", Tag: tag, S: cont}, depth)
+							plain := wrap(&Val{Kind: "s", S: cont}, depth)
+							h1 := newHistBuilder()
+							h1.add(Step{Op: "new", H: 0, Name: "root"})
+							if h1.add(Step{Op: "parse", H: 0, Text: text}) == "" {
+								continue
+							}
+							r1 := h1.add(Step{Op: "exec", H: 0, Data: typed})
+							h2 := newHistBuilder()
+							h2.add(Step{Op: "new", H: 0, Name: "root"})
+							h2.add(Step{Op: "parse", H: 0, Text: text})
+							r2 := h2.add(Step{Op: "exec", H: 0, Data: plain})
+							c.emit("tmpl.c03", []string{form, ctx[0], ctx[1], pre, tag, cont, h1.hist(), h2.hist()}, r1+"~"+r2, strings.HasPrefix(r1, "ok"), form+"-"+tag)
+						}
+					}
+				}
+			}
+		}
+	}
+	c.stats.Exhaustive = true
+	c.stats.ExhaustiveWhat = "7 safe types × pointer depth 0–2 × 27 contexts × quoting × URL prefix class × contents list"
 }
